@@ -321,7 +321,7 @@ def run_case(case, refdir=None, keep_log=False):
     if np_ > 1:
         ch = core.Choices(given=case["choices"]) if case.get("choices") is not None else \
             core.Choices(rng=random.Random(core.h64(f"regrid/{case.get('sched_seed', 0)}")))
-        sim = ProcSim(ch, step_cap=600000, keep_log=keep_log)
+        sim = ProcSim(ch, step_cap=600000, keep_log=keep_log, isolate=core.ISOLATE)
     outcomes = []
     violation = None
     probes = {"refused_then_success": 0, "raised_halfway": 0, "returns_to_earlier": 0,
